@@ -68,4 +68,9 @@ CLAIMED['C01'] = {
     'text': 'For every signal length, threshold and option set the classic sift is proved to return components that sum to the input at every sample, with a last component that has no envelopes (non-oscillatory), whenever it was not cut short by the cap or the sift threshold - given the contract of single-IMF extraction proved under C04. Floating-point rounding is measured by the bounded stand-in only.',
     'note': PROOF_NOTE + 'get_next_imf by its C04 contract (pure function of its input); sum of a concatenation = sum of the sums of the pieces (assumed numpy contract).',
 }
+CLAIMED['C03'] = {
+    'technique': 'deductive: peeling invariants of sift and mask_sift (column k = (masked) extraction from the residual recursion, cap on the column count), column-count invariant of complete_ensemble_sift, shape postconditions of ensemble_sift and the second-layer sifts; VCs from the real source discharged by z3; bounded stand-in: caps 1..n+2 on signals, prefix equality, recomputed components, shapes and finiteness for all five variants',
+    'text': 'For every signal and cap the classic and masked sifts are proved to build column k by (masked) single-IMF extraction from the input minus the first k columns and never to exceed the cap; since the extraction is a function of its input the capped run is a prefix of the uncapped one. complete_ensemble_sift is proved never to exceed the cap; ensemble and second-layer results have the documented shapes. Finiteness is bounded.',
+    'note': PROOF_NOTE + 'get_next_imf / get_next_imf_mask / member sifts by contract (modular).',
+}
 PENDING_REASON = {}
